@@ -200,6 +200,9 @@ class Driver:
         return True
 
 
+_CWD0 = os.getcwd()
+
+
 def execute(scenario, prof, seed, trace=None, then_generate=False, props=(), debug=False, keep=False,
             world_hook=None):
     """Execute one run.  Returns (world, info)."""
@@ -233,6 +236,8 @@ def execute(scenario, prof, seed, trace=None, then_generate=False, props=(), deb
             oracles.finish(w, prof, props)
         finally:
             kernel.W = None
+            if os.getcwd() != _CWD0:
+                os.chdir(_CWD0)
     finally:
         w.wall = _t.perf_counter() - t0
         if not keep and not os.environ.get("JV_KEEP"):
